@@ -31,6 +31,7 @@ type step struct {
 type script struct {
 	ID    string `json:"id"`
 	Cf    cfg    `json:"cf"`
+	Race  bool   `json:"race"` // gate-scheduled replay of spec/LimiterRace.tla (one client)
 	Steps []step `json:"steps"`
 }
 
@@ -44,7 +45,111 @@ func emit(v map[string]any) {
 	out.WriteByte('\n')
 }
 
+// ---- gate scheduling (build tag verif): one slow caller parked at rl:lock, the cleanup pass parked at rl:clean
+var (
+	armLock, armClean bool
+	raceT0            time.Time // creation instant of the limiter under test: its cleanup fires at t0 + k*tick exactly
+	lockParked        = make(chan struct{}, 1)
+	lockResume        = make(chan struct{})
+	cleanParked       = make(chan struct{}, 1)
+	cleanResume       = make(chan struct{})
+	raceSeq           int
+)
+
+func gate(point string) {
+	switch point {
+	case "rl:lock":
+		if armLock {
+			armLock = false
+			lockParked <- struct{}{}
+			<-lockResume
+		}
+	case "rl:clean":
+		// limiters of earlier scripts keep their tickers; they were created at other phases of the virtual clock
+		if armClean && time.Since(raceT0)%tick == 0 {
+			armClean = false
+			cleanParked <- struct{}{}
+			<-cleanResume
+		}
+	}
+}
+
+func runRace(sc script) {
+	raceSeq++
+	time.Sleep(time.Duration(raceSeq%400) * time.Second) // a phase of its own for this script's limiter
+	refill := time.Duration(sc.Cf.R) * tick
+	raceT0 = time.Now()
+	shared := ratelimiter.NewTokenBucketRateLimiter(sc.Cf.Max, refill)
+	time.Sleep(tick / 2)
+	emit(map[string]any{"ev": "cfg", "id": sc.ID, "cf": sc.Cf})
+	ip := "10.0.0.1"
+	slowDone := make(chan bool, 1)
+	inFlight, parked := false, false
+	for _, st := range sc.Steps {
+		switch st.A {
+		case "allow":
+			res := shared.Allow(ip)
+			emit(map[string]any{"ev": "allow", "c": 1, "res": res, "solo": res})
+		case "get":
+			if inFlight {
+				emit(map[string]any{"ev": "drift", "why": "slow caller already in flight"})
+				continue
+			}
+			armLock = true
+			go func() { slowDone <- shared.Allow(ip) }()
+			<-lockParked
+			inFlight = true
+			emit(map[string]any{"ev": "get", "c": 1})
+		case "spend":
+			if !inFlight {
+				emit(map[string]any{"ev": "drift", "why": "no slow caller in flight"})
+				continue
+			}
+			lockResume <- struct{}{}
+			res := <-slowDone
+			inFlight = false
+			emit(map[string]any{"ev": "allow", "c": 1, "res": res, "solo": res})
+		case "tick":
+			emit(map[string]any{"ev": "tick", "n": 1})
+			time.Sleep(tick)
+		case "tickpark":
+			armClean = true
+			emit(map[string]any{"ev": "tick", "n": 1})
+			time.Sleep(tick)
+			select {
+			case <-cleanParked:
+				parked = true
+			default:
+				armClean = false
+				emit(map[string]any{"ev": "drift", "why": "the cleanup pass found no bucket to look at"})
+			}
+		case "cleanresume":
+			if !parked {
+				emit(map[string]any{"ev": "drift", "why": "cleanup pass is not parked"})
+				continue
+			}
+			cleanResume <- struct{}{}
+			parked = false
+			for i := 0; i < 20; i++ {
+				runtime.Gosched() // the pass runs to its end (it does not block)
+			}
+		}
+	}
+	// leave nothing parked behind
+	if parked {
+		cleanResume <- struct{}{}
+	}
+	if inFlight {
+		lockResume <- struct{}{}
+		<-slowDone
+	}
+}
+
 func run(sc script) {
+	if sc.Race {
+		runRace(sc)
+		return
+	}
 	refill := time.Duration(sc.Cf.R) * tick
 	shared := ratelimiter.NewTokenBucketRateLimiter(sc.Cf.Max, refill)
 	solo := map[int]*ratelimiter.TokenBucketRateLimiter{}
@@ -74,6 +179,7 @@ func run(sc script) {
 func main() {
 	debug.SetGCPercent(-1)
 	runtime.GOMAXPROCS(1)
+	installGate()
 	in, err := os.Open(os.Args[1])
 	if err != nil {
 		panic(err)
